@@ -121,7 +121,7 @@ func allRequests(channels []string) []request {
 		for _, d := range []string{denomA, denomB} {
 			for _, amt := range []string{"1", "2", "3", "4", "max"} {
 				for _, rc := range []string{r1, r2} {
-					for _, memo := range []string{"", "m", " m ", "n"} {
+					for _, memo := range []string{"", "m", " m ", "n", "mm"} { // "mm" extends the allowed memo "m" and is itself allowed by the list {"mm"}
 						out = append(out, request{ch, d, amt, rc, memo})
 					}
 				}
@@ -139,7 +139,7 @@ func allocConfigs(channel string) []allocCfg {
 				continue // an empty spend limit is not a valid grant (ValidateBasic: "spend limit cannot be nil")
 			}
 			for _, allow := range [][]string{nil, {r1}} {
-				for _, memos := range [][]string{nil, {"m"}, {"*"}} {
+				for _, memos := range [][]string{nil, {"m"}, {"*"}, {"mm"}} {
 					out = append(out, allocCfg{Channel: channel, LimA: la, LimB: lb, Allow: allow, Memos: memos})
 				}
 			}
@@ -768,7 +768,7 @@ func run(c *core.C) {
 	if st.eligibleRejected > 0 {
 		fmt.Printf("NOTE property=C36 %d requests that the grant allows were rejected (not demanded by the statement; see coverage.eligible_but_rejected)\n", st.eligibleRejected)
 	}
-	c.Set("rule", "explicit-state: for every grant configuration (1 allocation: 8 limit pairs x 2 allow lists x 3 memo lists; 2 allocations: first as before x fixed second allocations) a BFS over the reachable stored-grant states up to the sequence bound; in every state all 160 requests (2 channels x 2 denoms x amounts {1,2,3,4,2^256-1} x 2 receivers x 4 memos) are executed through MsgExec; plus raw (unmerged) sequences with a cumulative ledger over a reduced alphabet. non-trivial = distinct (grant, grant state, request) triples addressed to an allocated channel with permitted receiver and memo, i.e. where the spend-limit ledger decides")
+	c.Set("rule", "explicit-state: for every grant configuration (1 allocation: 8 limit pairs x 2 allow lists x 4 memo lists (none, one memo, wildcard, a memo that extends the other one); 2 allocations: first as before x fixed second allocations) a BFS over the reachable stored-grant states up to the sequence bound; in every state all 200 requests (2 channels x 2 denoms x amounts {1,2,3,4,2^256-1} x 2 receivers x 5 memos incl. a whitespace-padded one and one that extends an allowed memo) are executed through MsgExec; plus raw (unmerged) sequences with a cumulative ledger over a reduced alphabet. non-trivial = distinct (grant, grant state, request) triples addressed to an allocated channel with permitted receiver and memo, i.e. where the spend-limit ledger decides")
 	c.Sample(map[string]any{"grant": grants[0].id(), "request": reqs[0].id(), "note": "first configuration and first request of the enumeration"})
 	c.Sample(map[string]any{"grant": grants[len(grants)-1].id(), "requests_per_state": len(reqs), "max_sequence_length": depth})
 	c.Assume("big.Int / map reference ledger is trusted")
